@@ -347,8 +347,9 @@ theorem checkECKeySmallDifference_spec (f : Factory) (sts : List EcState) (ms : 
   rw [if_pos this]
 
 /-- the factory regenerated from `ec_util.CURVE_FACTORY` meets the side conditions: unique ids, and
-`CurveHyp` for each of its nine curves once the nine field moduli are prime (hypothesis; validated
-per run by gmpy2.is_prime). -/
+`CurveHyp` for each of its nine curves once the nine field moduli are prime (premise of this
+statement; discharged from the Pratt certificates of Props/C11Primes in
+`curve_factory_hyp_certified`, Props/C10Cert.lean). -/
 theorem curve_factory_hyp :
     (regenFactory.map (·.id)).Nodup ∧
     ((∀ e ∈ regenFactory, ∀ c, e.curve = some c → Nat.Prime c.p) →
